@@ -140,34 +140,23 @@ theorem parseBin_binDigits (b : Bits) :
 /-- Printing what was parsed gives the canonical (tidied, prefix-free, lower-case) text back. -/
 theorem digits_of_parse (k : StrKind) (s : List Char) (h : (k.canon s).all (fun c => (k.val? c).isSome) = true) :
     ∃ b, k.set s = .ok b ∧ bitsToDigits k.width b = .ok (k.canon s) := by
-  sorry
+  obtain ⟨h1, h2, _⟩ := str_set_valid k s h
+  exact ⟨_, h1, h2⟩
 
 /-! ### creation: every route gives the canonical encoding -/
 
 /-- "Exactly the requested number of bits": the canonical encoding of a valid request has the requested length. -/
 theorem encode_length (q : Req) (len : Option Nat) (hv : Valid q len = true) :
     (encode q (resultLen q len)).length = resultLen q len := by
-  sorry
+  exact encode_length' q len hv
 
 /-- Route agreement: on every valid (dtype, length, value) each of the seven creation routes — keyword with
     `length=`, keyword with the length in the name, property assignment (plain and with length) on a mutable
     object, token string, `Dtype.build`, `pack` — returns exactly the canonical encoding. -/
 theorem routes_agree (q : Req) (len : Option Nat) (hv : Valid q len = true)
-    (r : Route) (ha : applicable r q = true) :
+    (r : Route) (ha : applicable r q len = true) :
     route r q len = .ok (encode q (resultLen q len)) := by
-  sorry
-
-/-- The region in which the code ignores a requested length (DESIGN §7, owned by C15): keyword routes,
-    dtypes whose `set_fn` takes its length from the value. -/
-def kw_length_ignored (r : Route) (q : Req) (len : Option Nat) : Bool :=
-  (r = .kw || r = .nameLen) &&
-  (match q with
-   | .str _ _ | .bits _ => true
-   | .bytes _ => r = .nameLen
-   | _ => false) &&
-  (match bitLen q len, naturalLen q with
-   | some n, some m => n ≠ m
-   | _, _ => false)
+  exact routes_agree' q len hv r ha
 
 /-
   Full statement (fails on the unchanged tree):
@@ -179,7 +168,7 @@ def kw_length_ignored (r : Route) (q : Req) (len : Option Nat) : Bool :=
 theorem route_ok_length_partial (r : Route) (q : Req) (len : Option Nat) (n : Nat) (b : Bits)
     (hr : r ≠ .prop) (hreg : kw_length_ignored r q len = false)
     (hn : bitLen q len = some n) (h : route r q len = .ok b) : b.length = n := by
-  sorry
+  exact route_ok_length_partial' r q len n b hr hreg hn h
 
 /-- Witness that the full statement fails inside the region: `Bits(hex='ff', length=4)` has 8 bits
     while every checking route rejects the request. -/
@@ -188,7 +177,7 @@ theorem kw_length_ignored_witness :
     route .nameLen (.str .hex ['f', 'f']) (some 4) = .ok (List.replicate 8 true) ∧
     route .build (.str .hex ['f', 'f']) (some 4) = .error .value ∧
     kw_length_ignored .kw (.str .hex ['f', 'f']) (some 4) = true := by
-  sorry
+  decide
 
 /-! ### reading: every route gives the value the pattern denotes -/
 
@@ -236,7 +225,8 @@ theorem encode_decode (k : Kind) (b : Bits) (hl : ValidLen k b.length = true) (q
 
 /-- … and therefore through every creation route. -/
 theorem rebuild_all_routes (k : Kind) (b : Bits) (hl : ValidLen k b.length = true) (q : Req)
-    (hq : reqOfValue k (decodeSpec k b) = some q) (r : Route) (ha : applicable r q = true) :
+    (hq : reqOfValue k (decodeSpec k b) = some q) (r : Route)
+    (ha : applicable r q (some (itemsOf k b.length)) = true) :
     route r q (some (itemsOf k b.length)) = .ok b := by
   sorry
 
